@@ -28,6 +28,11 @@ fn install_panic_hook() {
     }));
 }
 
+/// location and message of the last panic caught in this process
+pub fn last_panic() -> String {
+    LAST_PANIC.lock().unwrap().clone()
+}
+
 pub fn guarded<F: FnOnce() -> JsonValue>(f: F) -> JsonValue {
     match catch_unwind(AssertUnwindSafe(f)) {
         Ok(v) => v,
